@@ -14,8 +14,11 @@ STEPS = {
     # held inputs of the CELL's own signal type: straight from the input, and computed by a combinator
     "+hm": lambda e: B("+", e, V("hm")),
     "+hk": lambda e: B("+", e, V("hk")),
+    # the cell on the RIGHT of the step, another wired signal on the left (own type; other type, projected back)
+    "hm+": lambda e: B("+", V("hm"), e),
+    "h-": lambda e: ("proj", B("-", V("d"), e), "signal-M"),
 }
-NSTEPS = {k: (2 if k == "inc%5" else 1) for k in STEPS}
+NSTEPS = {k: (2 if k in ("inc%5", "h-") else 1) for k in STEPS}
 CELL = "signal-M"
 
 
@@ -56,7 +59,7 @@ def mk(chain, form, readers, optimize, first=None):
     if "bare" in readers:
         body.append(("decl", "Signal", "o0", ("read", "m")))
         rd["o0"] = "anchor"
-    inputs = (["d"] if "+h" in chain else []) + (["hm"] if ("+hm" in chain or "+hk" in chain) else [])
+    inputs = (["d"] if ("+h" in chain or "h-" in chain) else []) + (["hm"] if ("+hm" in chain or "+hk" in chain or "hm+" in chain) else [])
     if "+hk" in chain:
         body.insert(0, ("decl", "Signal", "hk", B("*", V("hm"), I(2))))
     return {"chain": list(chain), "form": form, "first": first, "readers": rd, "stmts": gen.prog_with_inputs(inputs, body),
@@ -69,7 +72,7 @@ class C04(core.Check):
     level = "model_checking"
     timeout = 300
     rule = ("orbit exploration: the emitted circuit is ticked from the all-zero power-on state until its full state "
-            "recurs (closure; cap 4096 ticks otherwise, reported) for every chain of 1..3 steps from a 9-step menu, "
+            "recurs (closure; cap 4096 ticks otherwise, reported) for every chain of 1..3 steps from a 13-step menu (incl. steps with the cell as RIGHT operand), "
             "in nested and step-by-step form, with 1-2 readers, optimised and not, for every held-input valuation; "
             "invariant: one latency L fits r(t+L)=f(r(t)) at every explored tick, at every reader's input; "
             "non-trivial = the cell took more than two different values")
